@@ -101,10 +101,10 @@ def run(tier, seed):
 
     # ---- TLC and the builds run side by side
     def tlc_job(cfg, env=None, coverage=False):
-        return core.tlc("Shadow", cfg=cfg, timeout=3000, env=env, coverage=coverage, workers=max(2, core.NCPU // 4))
+        return core.tlc("Shadow", cfg=cfg, timeout=LONG, env=env, coverage=coverage, workers=max(2, core.NCPU // 4))
 
     def build_job(name, src):
-        return core.build_many([core.BuildSpec(name, src, kind="py")], jobs=1)[0]
+        return core.build_many([core.BuildSpec(name, src, kind="py")], jobs=1, timeout=3600)[0]
 
     with concurrent.futures.ThreadPoolExecutor(max_workers=8) as ex:
         ft = {"dm8": ex.submit(tlc_job, "Shadow_dm8"), "dmw": ex.submit(tlc_job, "Shadow_dmw"),
@@ -126,6 +126,9 @@ def run(tier, seed):
     cov["action_coverage"] = {a: tl["prog"].coverage.get(a, (0, 0))[0] for a in RUN_ACTIONS + ["FallOff"]}
 
     # ---- builds: a program the compiler rejects is a disagreement; the module is rebuilt without it
+    for k, b in builds.items():
+        if not b.ok and b.stage == "timeout":
+            core.die("build of %s timed out (machine load), nothing decided" % k)
     if not builds["c38tab"].ok:
         rep.disagree({"part": "build", "module": "c38tab", "stage": builds["c38tab"].stage}, "build-failed",
                      {"errors": builds["c38tab"].errors[-3000:]})
@@ -150,7 +153,7 @@ def run(tier, seed):
             m["progs"] = [p for p in m["progs"] if p["pid"] not in bad]
             m["src"], m["entries"], m["spans"] = lp.render_module(m["progs"])
             m["name"] = m["name"] + "r"
-            b = core.build_many([core.BuildSpec(m["name"], m["src"], kind="py")], jobs=1)[0]
+            b = core.build_many([core.BuildSpec(m["name"], m["src"], kind="py")], jobs=1, timeout=3600)[0]
         builds[m["name"]] = b
         for pid, msg in m["dropped"].items():
             p = bypid[pid]
@@ -420,8 +423,8 @@ def run(tier, seed):
         name, b, src, bt = job
         # interpreted side only where an expectation exists
         idx = [i for i, mt in enumerate(bt.meta) if mt[2] is not SKIP]
-        iobs = lp.run_interp(name, src, [bt.calls[i] for i in idx], timeout=3000)
-        cobs = calls.run_calls(b, bt.calls, timeout=3000)
+        iobs = lp.run_interp(name, src, [bt.calls[i] for i in idx], timeout=LONG)
+        cobs = calls.run_calls(b, bt.calls, timeout=LONG)
         return name, cobs, dict(zip(idx, iobs))
 
     with concurrent.futures.ThreadPoolExecutor(max_workers=6) as ex:
@@ -465,7 +468,8 @@ def run(tier, seed):
                         "from": bt.meta[k][3]})
     # binding demonstration: a corrupted expectation must be rejected
     if demo is None or same(demo[0], demo[1] + 1) or not same(demo[0], demo[1]):
-        core.die("binding self-test failed")
+        core.die("binding self-test failed (replay jobs %d, compiled calls %d, builds not ok: %s)"
+                 % (len(jobs), n_c, sorted("%s:%s" % (k, b.stage) for k, b in builds.items() if not b.ok)))
 
     cov.update({
         "states": sum(t.generated for t in tl.values()), "distinct_states": sum(t.distinct for t in tl.values()),
